@@ -53,13 +53,13 @@ CHECKS = {
           'fresh object with the new value; caller arrays are read-only in the executor (a write is a frame violation); Panel.lb/freq are executed with the matrix '
           'methods replaced by contracts that tag each matrix with the definition it was computed from, so the eigenproblem handed to the solver is proved '
           'to be that of the current definition in every tested history.  ConeCyl (calc_k0, calc_fext, _calc_linear_matrices, calc_kT, calc_fint) is put through '
-          'the same three clauses with kernel stubs that carry their arguments (attributes r2, H, alphadeg, plyt, Fc, P).  PanelAssembly (calc_k0, calc_kG0, '
+          'the same three clauses with kernel stubs that carry their arguments (attributes r2, H, alphadeg, plyt, Fc, P, thetaTdeg, betadeg); Panel.calc_kA also with the flow given by Mach number, speed and density.  PanelAssembly (calc_k0, calc_kG0, '
           'calc_kM, get_k0_conn with and without finalize) and StiffPanelBay (calc_k0, calc_kG0, calc_kM, calc_kA, get_size; skin cut in two, one 2-D blade stiffener '
           'built by the real add_* methods) are put through the first-request and order clauses for all ordered pairs (get_k0_conn also with an explicit other connectivity) '
           'and through the change clause (panel laminate, interface position / skin and flange laminate, density).'),
     design_ref='DESIGN.md section 4 (C20)',
     note=('histories of length <= 3 over the listed methods (bounded in length, symbolic in all data); kernels/field functions assumed pure (thread-count independence of the compiled field wrappers is proved in C11); '
-          'plotting is not covered; 21 known findings (ConeCyl keeps derived data and cached matrices of the first evaluation), 6 fixed defects'),
+          'plotting is not covered; 22 known findings (ConeCyl keeps derived data and cached matrices of the first evaluation), 6 fixed defects'),
     technique='effect contracts + symbolic execution; structural comparison of result terms'),
  'C12': dict(
     category='proof',
